@@ -173,7 +173,7 @@ func c18Enumerate(c *Ctx, maxItems int, seps []string) {
 }
 
 // planted errors and statement separation
-var c18Fillers = []string{"a := 1", "b := \"s\"", "/* c */", "/* c\nd */", "# c\n", "x := r\"x\ny\"", "y := [1,\n2]", "z := \"é\""}
+var c18Fillers = []string{"a := 1", "t := [true, null, false]", "b := \"s\"", "/* c */", "/* c\nd */", "# c\n", "x := r\"x\ny\"", "y := [1,\n2]", "z := \"é\""}
 
 func c18Planted(c *Ctx, maxFill int) {
 	var rec func(src string, n int, swallowed []int)
@@ -213,40 +213,42 @@ func c18Planted(c *Ctx, maxFill int) {
 					c.Skip()
 				}
 				// (b) runtime error
-				rt := src + sep + "q := 1 + \"a\""
-				off = len(src) + len(sep)
-				c.Begin(rt)
-				erp := interpreter.NewECALRuntimeProvider("v", nil, nil)
-				erp.Cron.Stop()
-				var rerr error
-				if pk, pm := Guard(func() {
-					ast, err := parser.ParseWithRuntime("v", rt, erp)
-					if err != nil {
-						rerr = err
-						return
-					}
-					if err = ast.Runtime.Validate(); err != nil {
-						rerr = err
-						return
-					}
-					_, rerr = ast.Runtime.Eval(scope.NewScope(scope.GlobalScope), make(map[string]interface{}), erp.NewThreadID())
-				}); pk != "" {
-					c.Viol(pk, pm, rt)
-				} else if re, ok := rerr.(*util.RuntimeError); ok {
-					wl, wc := lineCol(rt, off)
-					c.Nontrivial()
-					// the expression `q := 1 + "a"` spans columns wc .. wc+11 of line wl
-					if re.Line != wl || re.Pos < wc || re.Pos > wc+11 {
-						k := "wrong-position: runtime error"
-						if kc := knownHashCol(rt, off, swallowed); re.Line == wl && kc != wc && re.Pos >= kc && re.Pos <= kc+11 {
-							k += " on the line after a # comment"
+				for _, bad := range []string{"q := 1 + \"a\"", "q := 2 * true", "q := 3 + null"} {
+					rt := src + sep + bad
+					off = len(src) + len(sep)
+					c.Begin(rt)
+					erp := interpreter.NewECALRuntimeProvider("v", nil, nil)
+					erp.Cron.Stop()
+					var rerr error
+					if pk, pm := Guard(func() {
+						ast, err := parser.ParseWithRuntime("v", rt, erp)
+						if err != nil {
+							rerr = err
+							return
 						}
-						c.Viol(k, fmt.Sprintf("source %q: runtime error reported at line %d column %d, the failing expression is at line %d columns %d-%d (%v)", rt, re.Line, re.Pos, wl, wc, wc+11, re), rt)
+						if err = ast.Runtime.Validate(); err != nil {
+							rerr = err
+							return
+						}
+						_, rerr = ast.Runtime.Eval(scope.NewScope(scope.GlobalScope), make(map[string]interface{}), erp.NewThreadID())
+					}); pk != "" {
+						c.Viol(pk, pm, rt)
+					} else if re, ok := rerr.(*util.RuntimeError); ok {
+						wl, wc := lineCol(rt, off)
+						c.Nontrivial()
+						// the expression `q := 1 + "a"` spans columns wc .. wc+11 of line wl
+						if re.Line != wl || re.Pos < wc || re.Pos > wc+11 {
+							k := "wrong-position: runtime error"
+							if kc := knownHashCol(rt, off, swallowed); re.Line == wl && kc != wc && re.Pos >= kc && re.Pos <= kc+11 {
+								k += " on the line after a # comment"
+							}
+							c.Viol(k, fmt.Sprintf("source %q: runtime error reported at line %d column %d, the failing expression is at line %d columns %d-%d (%v)", rt, re.Line, re.Pos, wl, wc, wc+11, re), rt)
+						} else {
+							c.Outcome("runtime-error-position-ok")
+						}
 					} else {
-						c.Outcome("runtime-error-position-ok")
+						c.Skip()
 					}
-				} else {
-					c.Skip()
 				}
 				// (b2) an error raised by raise(...) whose arguments contain calls, also over several lines
 				for _, rs := range []string{"raise(\"E\", \"d\", len([1]))", "raise(\"E\",\n  concat([1], [2]),\n  len([1, 2]))", "raise(\"E\", \"{{len([1])}}\")"} {
